@@ -202,6 +202,22 @@ def classify(e: BaseException) -> str:
     return ERRS.get(type(e).__name__, "Other:" + type(e).__name__)
 
 
+_TMP_ROOT = None
+
+
+def _tmp_root():
+    """one scratch directory per process (removed at exit) for the empty config directory and
+    the yaml directories handed to refresh"""
+    global _TMP_ROOT
+    if _TMP_ROOT is None:
+        import atexit
+        import shutil
+        _TMP_ROOT = tempfile.mkdtemp(prefix="c19_")
+        os.mkdir(os.path.join(_TMP_ROOT, "empty"))
+        atexit.register(shutil.rmtree, _TMP_ROOT, True)
+    return _TMP_ROOT
+
+
 class Impl:
     """runs abstract ops on quantem.core.config; private pair or module globals"""
 
@@ -209,7 +225,7 @@ class Impl:
         from quantem.core import config as C
         self.C = C
         self.use_globals = use_globals
-        self.empty_dir = tempfile.mkdtemp(prefix="c19_empty_")
+        self.empty_dir = os.path.join(_tmp_root(), "empty")
         if use_globals:
             self.config, self.defaults = C.config, C.defaults
         else:
@@ -235,7 +251,7 @@ class Impl:
         if not yamls:
             return self.empty_dir
         import yaml
-        d = tempfile.mkdtemp(prefix="c19_yaml_")
+        d = tempfile.mkdtemp(prefix="yaml_", dir=_tmp_root())
         for i, y in enumerate(yamls):
             with open(os.path.join(d, "%02d.yaml" % i), "w") as f:
                 yaml.safe_dump(y, f, sort_keys=False)
